@@ -277,7 +277,7 @@ func VH_C16_quoted() {
 // before its last token is not extended (nothing after the point of the syntax
 // error is ever looked at), so what is explored is every *viable* prefix of the
 // grammar up to the length bound, each extended by every token kind. Finite case
-// split, no solver variables: texts and numbers are fixed ("a", 1, 1.5), the
+// split, no solver variables: texts and numbers are fixed ("a", "<", 1, 1.5), the
 // actions do not branch on them.
 var vhTokKinds = [...]int{
 	'(', ')', ',', '+', '-', '~', '*',
@@ -304,7 +304,19 @@ func VH_C16_tokens_total() {
 				break // the sequence ends here
 			}
 		}
-		toks = append(toks, token{typ: vhTokKinds[c], s: "a", n: 1, f: 1.5})
+		// fields as the tokenizer fills them: numbers carry n or f, all others s
+		tk := token{typ: vhTokKinds[c], s: "a"}
+		switch tk.typ {
+		case tSignedNumber:
+			tk = ntoken(1)
+		case tFloat:
+			tk = ftoken(1.5)
+		case '(', ')', ',', '+', '-', '~', '*':
+			tk.s = string(rune(tk.typ))
+		case tOperator:
+			tk.s = "<"
+		}
+		toks = append(toks, tk)
 		l := &lexer{tokens: toks}
 		yyParse(l)
 		if l.err != nil {
